@@ -130,4 +130,189 @@ theorem kg_track (steps : Nat → Step GenSt) (R : List (Party GenSt)) (i : Nat)
   · rw [h]; exact h0
   · exact hkeep _ _ _ _ h
 
+/-! ### more fields of an honest party's state after rounds 0, 1, 2 -/
+
+theorem kg_genDeal_aik (n t i : Nat) (sfb : Bool) (strong : List Int) (weak : List Nat) (st : GenSt)
+    (ops : List Op) (s : Status) (h : genDeal G n t i sfb strong weak = .ok (st, ops, s)) :
+    st.aik = zeroRows n t ∧ st.complainers = [] := by
+  unfold genDeal at h
+  by_cases hlen : strong.length < 2 * (t + 1)
+  · simp [hlen, throw, throwThe, MonadExceptOf.throw, bind, Except.bind] at h
+  · simp only [hlen, if_false] at h
+    obtain ⟨ga, hga, h⟩ := ag_bind_ok _ _ _ h
+    obtain ⟨hb, -, h⟩ := ag_bind_ok _ _ _ h
+    simp only [pure, Except.pure, Except.ok.injEq, Prod.mk.injEq] at h
+    obtain ⟨rfl, _, _⟩ := h
+    exact ⟨rfl, rfl⟩
+
+theorem kg_genReadShares_sp (q : Int) (hq : 0 < q) (st : GenSt) (L : List Nat) (I : Inbox) (s sp : List Int)
+    (cm : List Nat) :
+    (genReadShares q st L I s sp cm).2.2.1.length = sp.length ∧
+    getI (genReadShares q st L I s sp cm).2.2.1 st.i = getI sp st.i ∧
+    (InR q sp → InR q (genReadShares q st L I s sp cm).2.2.1) := by
+  induction L generalizing I s sp cm with
+  | nil => simp [genReadShares]
+  | cons j rest ih =>
+    unfold genReadShares
+    by_cases hji : j = st.i
+    · simp only [hji, if_true]
+      exact ih _ _ _ _
+    · simp only [hji, if_false]
+      rcases I.popP j with ⟨_ | v, I1⟩
+      · exact ih _ _ _ _
+      · simp only [ag_ite_pair]
+        rcases I1.popP j with ⟨_ | w, I2⟩
+        · exact ih _ _ _ _
+        · simp only
+          obtain ⟨a1, a2, a3⟩ := ih I2 (s.set j (if absGe v q = true then 0 else v))
+            (sp.set j (if absGe w q = true then 0 else w))
+            (if (absGe v q || absGe w q) = true then cm ++ [j] else cm)
+          exact ⟨a1.trans (by simp), a2.trans (getI_set_ne _ _ _ _ (Ne.symm hji)),
+            fun h => a3 (ag_InR_set q sp j _ h (ag_absGe_range q hq w))⟩
+
+/-- fields after round 2 (and round 1) not recorded elsewhere -/
+structure Extra2 (G : Grp) (n t : Nat) (ins : List PartyIn) (i : Nat) (st : GenSt) : Prop where
+  splen : st.sp.length = n
+  spIn : InR G.q st.sp
+  spown : getI st.sp i = shB G t (pinOf ins i) i
+  opn : ∀ j, j < n → Eq4S G i (getRow st.C j) (getI st.s j) (getI st.sp j) ∨ i ∈ st.complainers.getD j []
+  cplen : st.complainers.length = n
+  aik : st.aik = zeroRows n t
+
+theorem kg_genVerify_extra2 (hq : 0 < G.q) (n t : Nat) (ins : List PartyIn) (i : Nat) (st : GenSt) (I : Inbox)
+    (st' : GenSt) (I' : Inbox) (ops : List Op) (s : Status)
+    (h : genVerify G st I = .ok (st', I', ops, s)) (hn : st.n = n) (hi : st.i = i)
+    (hsp : st.sp = (zeros n).set i (shB G t (pinOf ins i) i)) (hin : i < n)
+    (hsb : (shB G t (pinOf ins i) i).natAbs < G.q.natAbs) (haik : st.aik = zeroRows n t) :
+    Extra2 G n t ins i st' := by
+  unfold genVerify at h
+  rcases h1 : genReadC G st (List.range st.n) I st.C [] with ⟨I1, C, cm1⟩
+  rw [h1] at h
+  simp only at h
+  have hk := kg_genReadShares_sp G.q hq st (List.range st.n) I1 st.s st.sp cm1
+  rcases h2 : genReadShares G.q st (List.range st.n) I1 st.s st.sp cm1 with ⟨I2, s2, sp2, cm2⟩
+  rw [h2] at h hk
+  simp only at h hk
+  obtain ⟨⟨gs, cm3⟩, h3, h⟩ := ag_bind_ok _ _ _ h
+  simp only [pure, Except.pure, Except.ok.injEq, Prod.mk.injEq] at h
+  obtain ⟨rfl, _, _⟩ := h
+  obtain ⟨k1, k2, k3⟩ := hk
+  have hsound := (genCheck4_sound G st C s2 sp2 (List.range st.n) st.gs cm2 gs cm3 h3).2
+  refine ⟨?_, ?_, ?_, ?_, ?_, haik⟩
+  · show sp2.length = n
+    rw [k1, hsp]; simp [zeros]
+  · apply k3
+    rw [hsp]
+    exact ag_InR_zeros_set G.q hq n i _ hsb
+  · show getI sp2 i = _
+    rw [← hi, k2, hi, hsp, getI_set_self _ _ _ (by simp [zeros, hin])]
+  · intro j hj
+    show Eq4S G i (getRow C j) (getI s2 j) (getI sp2 j) ∨
+      i ∈ ((List.range st.n).map (fun j => if (sortUniq st.n cm3).contains j then [st.i] else [])).getD j []
+    by_cases hm : j ∈ cm3
+    · right
+      rw [hn, List.getD_eq_getElem _ _ (by simpa using hj)]
+      have : j ∈ sortUniq n cm3 := (ag_mem_sortUniq _ _ _).mpr ⟨hj, hm⟩
+      simp [this, hi]
+    · left
+      rw [← hi]
+      exact hsound j (by rw [hn]; exact List.mem_range.mpr hj) hm
+  · show ((List.range st.n).map _).length = n
+    simp [hn]
+
+theorem kg_genCollect_extra2 (n t : Nat) (ins : List PartyIn) (i : Nat) (st : GenSt) (I : Inbox)
+    (hb : I.b.length = st.n) (hn : st.n = n) (hi : st.i = i) (he : Extra2 G n t ins i st) :
+    Extra2 G n t ins i (genCollect st I).1 ∧ (genCollect st I).1.sp = st.sp := by
+  have hIb : ∀ j ∈ List.range st.n, j < I.b.length := fun j hj => by rw [hb]; exact List.mem_range.mp hj
+  have hcp : (genCollect st I).1.complainers = genComplainers st (List.range st.n) I st.complainers := by
+    unfold genCollect
+    rcases genCollectGo st (List.range st.n) I st.cnt [] [] with ⟨I1, cnt, cf, cm⟩
+    rfl
+  have hsame : (genCollect st I).1.sp = st.sp ∧ (genCollect st I).1.s = st.s ∧ (genCollect st I).1.C = st.C ∧
+      (genCollect st I).1.aik = st.aik := by
+    unfold genCollect
+    rcases genCollectGo st (List.range st.n) I st.cnt [] [] with ⟨I1, cnt, cf, cm⟩
+    exact ⟨rfl, rfl, rfl, rfl⟩
+  obtain ⟨e1, e2, e3, e4⟩ := hsame
+  refine ⟨⟨by rw [e1]; exact he.splen, by rw [e1]; exact he.spIn, by rw [e1]; exact he.spown, ?_, ?_,
+    by rw [e4]; exact he.aik⟩, e1⟩
+  · intro j hj
+    rw [e1, e2, e3, hcp]
+    rcases he.opn j hj with h | h
+    · exact Or.inl h
+    · right
+      exact ((ag_genComplainers st (List.range st.n) I hIb st.complainers j i
+        (by rw [he.cplen]; exact hj)).2).mpr (Or.inl h)
+  · rw [hcp]
+    by_cases h0 : 0 < n
+    · exact ((ag_genComplainers st (List.range st.n) I hIb st.complainers 0 0
+        (by rw [he.cplen]; exact h0)).1).trans he.cplen
+    · have hn0 : n = 0 := by omega
+      have : st.n = 0 := by rw [hn, hn0]
+      rw [this]
+      simp only [List.range_zero, genComplainers]
+      exact he.cplen
+
+theorem cfgGen_three (n t : Nat) (ins : List PartyIn) :
+    cfgGen G n t ins 3 = runRound (genStep G ins n t 2) (runRound (genStep G ins n t 1)
+      (runRound (genStep G ins n t 0) (ps0 n t ins))) := by
+  have h3 := cfgGen_succ (G := G) n t ins 2
+  have h2 := cfgGen_succ (G := G) n t ins 1
+  have h1 := cfgGen_succ (G := G) n t ins 0
+  rw [h3, h2, h1, cfgGen_zero]
+
+theorem SetupK.setting {n t : Nat} {ins : List PartyIn} (S : SetupK G n t ins) : Setting G n t ins :=
+  ⟨S.hG, S.hn, S.hc⟩
+
+/-- the honest party `i` after rounds 0, 1, 2: everything the later rounds need -/
+theorem kg_R3 {n t : Nat} {ins : List PartyIn} (S : SetupK G n t ins) (i : Nat) (hi : i ∈ honestIdx ins) :
+    Inv3 G n t ins (cfgGen G n t ins 3) ∧
+    ∃ P, (cfgGen G n t ins 3)[i]? = some P ∧ S3 G n t ins i P ∧ Extra G n t ins i P.st ∧
+      Extra2 G n t ins i P.st := by
+  have hG := S.hG
+  have hq : 0 < G.q := hG.vg.q_pos
+  obtain ⟨I3, P3, hP3, s3, e3⟩ := ra_R3 S.setting S.hn64 S.hf i hi
+  rw [cfgGen_three]
+  refine ⟨I3, P3, hP3, s3, e3, ?_⟩
+  have I1 := ag_round0 S.setting
+  have I2 := ag_round1 S.setting S.hn64 _ I1
+  obtain ⟨P1, hP1, s1⟩ := I1.2.1 i hi
+  obtain ⟨P2, hP2, s2⟩ := I2.2.1 i hi
+  obtain ⟨hi1, hi2⟩ := (ag_mem_honestIdx ins i).mp hi
+  rw [S.hn] at hi1
+  have hd := s1.dealt
+  have haik : P1.st.aik = zeroRows n t := by
+    have hP0 := ag_ps0_getElem? n t ins S.hn i hi1
+    obtain ⟨P1', hP1', hdl⟩ := ag_runRound_party (genStep G ins n t 0) (ps0 n t ins) i _ hP0
+    have hPeq : P1' = P1 := Option.some.inj (hP1'.symm.trans hP1)
+    rw [hPeq] at hdl
+    rcases ag_stepParty_st (ps0 n t ins).length (genStep G ins n t 0 i) _ with h | ⟨I, ops, status, h⟩
+    · exfalso
+      have hC := hd.C
+      rw [hdl.st, h] at hC
+      have := congrArg List.length hC
+      simp [zeroRows] at this
+      omega
+    · rw [← hdl.st] at h
+      simp only [genStep] at h
+      obtain ⟨⟨st1, ops1, sx⟩, hg, h⟩ := ag_bind_ok _ _ _ h
+      simp only [pure, Except.pure, Except.ok.injEq, Prod.mk.injEq] at h
+      obtain ⟨rfl, _, _, _⟩ := h
+      exact (kg_genDeal_aik _ _ _ _ _ _ _ _ _ hg).1
+  have e2 : Extra2 G n t ins i P2.st := by
+    obtain ⟨st', I', D, hv, -⟩ := ag_verify_honest S.setting i hi P1 s1
+    obtain ⟨-, P2', hP2', f1, -⟩ := ag_honest_round (genStep G ins n t 1) _ i P1 hP1 s1.hl _ _ _ _ hv
+    have hPeq : P2' = P2 := Option.some.inj (hP2'.symm.trans hP2)
+    rw [hPeq] at f1
+    rw [f1]
+    exact kg_genVerify_extra2 hq n t ins i P1.st P1.inbox st' I' _ _ hv hd.hn hd.hi hd.sp hi1
+      (ag_sh_range hG t _ i).2.2.2 haik
+  have hs : genStep G ins n t 2 i P2.st P2.inbox = .ok ((genCollect P2.st P2.inbox).1,
+      (genCollect P2.st P2.inbox).2.1, (genCollect P2.st P2.inbox).2.2.1, (genCollect P2.st P2.inbox).2.2.2) := rfl
+  obtain ⟨-, P3', hP3', f1, -⟩ := ag_honest_round (genStep G ins n t 2) _ i P2 hP2 s2.hl _ _ _ _ hs
+  have hPeq : P3' = P3 := Option.some.inj (hP3'.symm.trans hP3)
+  rw [hPeq] at f1
+  rw [f1]
+  exact (kg_genCollect_extra2 n t ins i P2.st P2.inbox (by rw [s2.blen, s2.hn]) s2.hn s2.hi e2).1
+
 end Tmcg.DkgP
